@@ -66,6 +66,19 @@ pub fn gen(tier: &str, seed: u64) -> Gen {
     }
     fams.push(("an element that is a list with repeated items (length<=7 over {a,*,blank}, at least 4 words), viewed as a dictionary in between".to_string(), ndict, true));
 
+    // elements that read as numbers but are not canonically spelled (padded, signed, hex, with an
+    // exponent): each is used as a number (as_int / as_float) before the list is formatted
+    let numeric = [" 12 ", "3\n", "\t0x1F", " 1.5 ", "+7 ", "1e3 ", " -0", "007 ", " 0 ", "12", " 2.50\t"];
+    let mut nnum = 0;
+    for a in &numeric {
+        for b in &["b", " 4 ", "{", ""] {
+            cases.push(tl(vec![ts(a), ts(b)]));
+            cases.push(tl(vec![ts(b), ts(a), ts(a)]));
+            nnum += 2;
+        }
+    }
+    fams.push(("elements that read as numbers without being canonically spelled, used as numbers before the list is formatted".to_string(), nnum, true));
+
     // random longer lists incl. Unicode blanks and nested lists
     let mut all: Vec<&str> = ALPHA.to_vec();
     all.extend(EXTRA.iter());
@@ -108,6 +121,7 @@ pub fn run(case: &Term) -> Term {
         let _ = v.as_dict();
         let l2 = list_result(v);
         let _ = v.as_int();
+        let _ = v.as_float();
         let l3 = list_result(v);
         // the list view of an element is the same before and after its other views
         stable = stable && l1 == l2 && l2 == l3 && l1 == list_result(&Value::from(v.as_str()));
@@ -118,6 +132,23 @@ pub fn run(case: &Term) -> Term {
     }
     if formatted_viewed != formatted {
         formatted = format!("{}<<differs after views>>{}", formatted, formatted_viewed);
+    }
+    // the same sequence held as a dictionary (an even number of elements, distinct keys) has the
+    // same string as the list
+    let strs = case.strs();
+    if strs.len() % 2 == 0 && !strs.is_empty() {
+        let keys: Vec<&String> = strs.iter().step_by(2).collect();
+        let distinct = (0..keys.len()).all(|i| (0..i).all(|j| keys[i] != keys[j]));
+        if distinct {
+            let plain = Value::from(strs.iter().map(|s| Value::from(s.as_str())).collect::<Vec<Value>>());
+            let plain_str = plain.as_str().to_string();
+            if let Ok(d) = Value::from(plain_str.as_str()).as_dict() {
+                let ds = Value::from((*d).clone()).as_str().to_string();
+                if ds != plain_str {
+                    formatted = format!("{}<<as a dictionary>>{}", formatted, ds);
+                }
+            }
+        }
     }
     let back = Value::from(formatted.as_str());
     let r = list_result(&back);
